@@ -23,6 +23,9 @@ pub enum B {
     PubAddr(u8, u32),
     /// subscriber s publishes from a handler (Context::publish)
     PubCtx(u8, u8, u32),
+    /// Broker::try_publish: publishes if a broker for the topic is running, otherwise says None
+    /// (and starts none)
+    TryPub(u8, u32),
     /// drop this client's strong handle to subscriber s
     DropSub(u8),
     StopSub(u8),
@@ -77,6 +80,13 @@ async fn run_b(c: u8, mut subs: Vec<Option<Addr<P>>>, ops: Vec<B>) {
                         ru(Broker::<T1>::from_registry().await.publish(T1(id)).await)
                     } else {
                         ru(Broker::<T2>::from_registry().await.publish(T2(id)).await)
+                    }
+                }
+                B::TryPub(topic, id) => {
+                    let r = if topic == 1 { Broker::<T1>::try_publish(T1(id)).await } else { Broker::<T2>::try_publish(T2(id)).await };
+                    match r {
+                        Some(r) => ru(r),
+                        None => Res::None,
                     }
                 }
                 B::PubCtx(s, topic, id) => match subs[s as usize].as_ref() {
@@ -180,7 +190,20 @@ impl Scene for S {
                 match *op {
                     B::Sub(s, topic) | B::SubCtx(s, topic) => subs.push((s, topic, iv)),
                     B::Unsub(s, topic) => unsubs.push((s, topic, iv)),
-                    B::Pub(topic, id) | B::PubAddr(topic, id) | B::PubCtx(_, topic, id) => {
+                    B::TryPub(topic, id) if o.res == Some(Res::None) => {
+                        // "no broker": right when nothing has brought one up yet - any earlier
+                        // subscribe, unsubscribe or publish on the topic has (single-client
+                        // programs: nobody else holds the registry lock meanwhile)
+                        crate::check::oblige("try-publish");
+                        let brought_up = prog[..i].iter().any(|b| matches!(b, B::Sub(_, tp) | B::SubCtx(_, tp) | B::Unsub(_, tp) | B::Pub(tp, _) | B::PubAddr(tp, _) | B::PubCtx(_, tp, _) if *tp == topic));
+                        if brought_up && self.programs.len() == 1 {
+                            v("publish-ok", "C09/try-publish-missed-the-running-broker".into(), format!("try_publish {id} said there is no broker for topic {topic} although earlier operations of the same client had brought one up"));
+                        }
+                    }
+                    B::TryPub(topic, id) if o.ok() && !prog[..i].iter().any(|b| matches!(b, B::Sub(_, tp) | B::SubCtx(_, tp) | B::Unsub(_, tp) | B::Pub(tp, _) | B::PubAddr(tp, _) | B::PubCtx(_, tp, _) if *tp == topic)) && self.programs.len() == 1 => {
+                        v("publish-ok", "C09/try-publish-started-a-broker".into(), format!("try_publish {id} published on topic {topic} although no broker had been brought up"));
+                    }
+                    B::Pub(topic, id) | B::PubAddr(topic, id) | B::PubCtx(_, topic, id) | B::TryPub(topic, id) => {
                         if o.end.is_none() {
                             v("publish-resolves", "C09/publish-hangs".into(), format!("publish {id} never returned"));
                         } else if !o.ok() {
@@ -318,6 +341,14 @@ fn base_cases(tier: Tier) -> Vec<Case> {
             push(&mut v, n, vec![vec![B::Sub(0, 2), p]], None);
         }
     }
+    // try_publish: a publication when a broker is up, "none" (and no broker) when not
+    for sub in [B::Sub(0, 1), B::SubCtx(0, 1)] {
+        push(&mut v, 1, vec![vec![sub, B::TryPub(1, 41), B::Pub(1, 42)]], None);
+        push(&mut v, 1, vec![vec![B::TryPub(1, 41), sub, B::TryPub(1, 42), B::TryPub(2, 43)]], None);
+        push(&mut v, 1, vec![vec![sub, B::Unsub(0, 1), B::TryPub(1, 41), sub, B::TryPub(1, 42)]], None);
+        push(&mut v, 2, vec![vec![sub, B::Sub(1, 1), B::DropSub(0), B::TryPub(1, 41), B::TryPub(1, 42)]], None);
+    }
+    push(&mut v, 1, vec![vec![B::TryPub(1, 41), B::Pub(1, 42), B::TryPub(1, 43)]], None);
     // two subscribers, one publisher client: same order at both
     for p in pubs(41) {
         push(&mut v, 2, vec![vec![B::Sub(0, 1), B::Sub(1, 1), p, B::Pub(1, 42)]], None);
